@@ -88,7 +88,7 @@ PROPS = {
     ),
     "C20": dict(
         props="Props/C20.v", tables=["core"],
-        suites=[suite_e.run],
+        suites=[suite_e.run, suite_known.run_c20_known],
         rule=("suite Q2: ==, !=, hash(), use as set/dict keys on pairs (m, m') of independently built models, and the "
               "full pairwise ==/hash/< matrices of their features, relations and constraints, vs the model; m' = an "
               "identical rebuild, an order-permuted copy (children, relations, constraints shuffled), or a single-point "
@@ -306,7 +306,7 @@ def _known_key(f):
 
 
 FINDING_KEYS = {"C18": _c18_key, "C10": _c10_key, "C04": _known_key, "C01": _known_key, "C02": _known_key, "C09": _known_key,
-                "C11": _known_key}
+                "C11": _known_key, "C20": _known_key}
 
 
 def replay(ctx, info, path):
